@@ -157,7 +157,7 @@ var solvers = []solverSpec{
 		return []string{"z3", fmt.Sprintf("-T:%d", t), "-smt2", f}
 	}},
 	{"cvc5-1.0.3", func(f string, t int) []string {
-		return []string{"cvc5", fmt.Sprintf("--tlimit=%d", t*1000), "--produce-models", f}
+		return []string{"cvc5", "--lang=smt2", fmt.Sprintf("--tlimit=%d", t*1000), "--produce-models", f}
 	}},
 }
 
@@ -234,5 +234,6 @@ func solveRace(script string, name string, timeoutS int, all bool, seed int) (ve
 
 func cvc5Dialect(s string) string {
 	s = strings.ReplaceAll(s, "(get-model)", "")
+	s = strings.ReplaceAll(s, "(set-option :smt.mbqi true)", "")
 	return "(set-logic ALL)\n" + s
 }
